@@ -286,6 +286,18 @@ def deferred(chk, F, T, rid="R-DEFER"):
     where = "%s:%s" % (fn["file"], consumer[0].get("l"))
     looped = [p for p, lp in producers if lp]
     ok = len(producers) == 1 and not looped
+    # ... or a parse that gives up leaves nothing behind: every parsing entry point drops the operands pushed beyond the
+    # depth it noted before utap_parse() (scopes.entry_restores on the operand stack)
+    from .scopes import entry_restores
+    entries = [f for f in F.fns("parse_XTA") if any(c.get("k") == "call" and c.get("name") == "utap_parse" for c in walk(f["body"]))]
+    drops = bool(entries) and all(entry_restores(F, f, "fragments") is not None for f in entries)
+    if not ok and drops:
+        chk.ob(rid, "location|proc_location|single-parse", True, "", where,
+               sample="several label parses precede proc_location, but a parse that fails drops its operands "
+                      "(parse_XTA restores the operand depth)")
+        chk.analysed[rid] = {"producers": sorted({p.get("name") for p, _ in producers}), "in_loop": bool(looped),
+                             "failed_parse_drops_operands": True}
+        return
     chk.ob(rid, "location|proc_location|single-parse", ok,
            "XMLReader::location parses the labels of a location in a loop (%s) and only afterwards lets proc_location "
            "pop the invariant / rate from the top of the operand stack: a label that fails to parse after a good "
